@@ -3,7 +3,7 @@ CONSTANTS
   NF = 2
   Mods = {"A", "B"}
   BindOptions = {{}, {"int=user", "len=none"}, {"float=zero", "len=user"}}
-  Faults = {"none", "py_after", "guppy_before", "bad_return"}
+  Faults = {"none", "py_after", "guppy_before", "intr_after", "bad_return"}
   AllowNest = TRUE
   MaxCompiles = 1
   EmitHist = TRUE
